@@ -729,12 +729,12 @@ pub trait BrokerOperations<O: BrokerOrder, Q: BrokerQuote>:
             if diff_val.lt(&0.0) {
                 let price = quote.get_bid();
                 let costs = brkr.calc_trade_impact(&diff_val.abs(), &price, false);
-                let total = (costs.0 / costs.1).floor();
+                let total = (costs.0 / costs.1).floor().max(0.0);
                 -total
             } else {
                 let price = quote.get_ask();
                 let costs = brkr.calc_trade_impact(&diff_val.abs(), &price, true);
-                (costs.0 / costs.1).floor()
+                (costs.0 / costs.1).floor().max(0.0)
             }
         };
 
